@@ -480,6 +480,14 @@ func (ex *Exec) verifIntrinsic(st *PState, fn *ssa.Function, base string, args [
 		bt := fn.Signature.Results().At(0).Type().(*types.Pointer).Elem()
 		o := ex.alloc(st, "bigrange", bt, v)
 		return &PtrV{Obj: o}, true
+	case "verifRealConst":
+		// verifRealConst[T](n int) T: the integer n as an element of an abstracted (real) type
+		n := ex.constIntArg(args[0])
+		return ts.Real(big.NewRat(n, 1)), true
+	case "verifNonResidue":
+		// verifNonResidue[T]() T: the non-residue atom of an abstracted tower level T
+		rt := fn.Signature.Results().At(0).Type()
+		return ts.Var("nonres!"+typeKey(rt), SReal, nil, nil), true
 	case "verifGhostSet":
 		ex.ghost[constString(args[0])] = args[1]
 		return nil, true
